@@ -1340,7 +1340,6 @@ def run(ctx):
             items += [('product', typ, 'quick', lo, min(lo + step, n2), 'then') for lo in range(0, n2, step)]
     nhist = len(history_cases())
     items += [('history', lo, min(lo + 800, nhist)) for lo in range(0, nhist, 800)]
-    items.append(('groups',))
     sweep_sizes = {}
     for name in SWEEPS:
         n = len(sweep_cases(name))
@@ -1363,7 +1362,15 @@ def run(ctx):
         items += [('short', '', 2)] + [('short', a + b, maxlen - 1) for a in URL_TOKENS for b in URL_TOKENS]
     # biggest items first so the pool drains evenly
     items.sort(key=lambda it: 0 if it[0] in ('product', 'short', 'langs') else 1)
-    ctx.pmap(work, items)
+    # pre-flight: the live-object groups.  When schema objects share state every later case would be judged on
+    # polluted (and ever-growing) objects, so the rest of the enumeration is skipped and reported as a cap.
+    ctx.pmap(work, [('groups',)])
+    shared_state = any(v['signature'].get('object') == 'group' for v in ctx.res.violations.values())
+    if shared_state:
+        ctx.res.count('capped')
+        ctx.res.tally('enumeration_skipped_because_objects_share_state')
+    else:
+        ctx.pmap(work, items)
 
     res = ctx.res
     res.sample({'claim_case': {'type': 'stream', 'ops': [['dec', 'fee.lbc', '0.29'], ['str', 'fee.address', ADDR]], 'sign': None},
